@@ -29,7 +29,7 @@ def main():
                 entries.append(("seeded/" + d, m["properties"]))
     if sel:
         entries = [e for e in entries if any(s in e[0] for s in sel)]
-    respath = os.path.join(VERIF, "mutants", "RESULTS.json")
+    respath = os.environ.get("SELFTEST_RESULTS") or os.path.join(VERIF, "mutants", "RESULTS.json")
     results = json.load(open(respath)) if os.path.exists(respath) else {}
     env = dict(os.environ, VERIF_REPO=mutant.WT, VERIF_TARGET_DIR=mutant.ROOT + "/target", VERIF_NO_EVIDENCE="1",
                CARGO_NET_OFFLINE="true")
